@@ -2,7 +2,7 @@ CONSTANTS
   SrvCases <- MCSrv
   Tier = "small"
   UpCases <- AllUp
-  Defects = {"IfGivenForRequire"}
+  Defects = {"UpstreamSessionCache"}
 SPECIFICATION Spec
 INVARIANTS TypeOK RaceFinal RaceNoMix LastPushWins SelectionIsPick NeverNotReady AuthSound ResumeAsFull PlainOnlyIfInspector UpSound
 CHECK_DEADLOCK FALSE
